@@ -624,7 +624,8 @@ type helperSummary struct {
 	all, onNil, onErr Facts // facts at all normal exits / only at `return nil` exits / only at error exits
 	errResult         bool
 	complete          bool // computed from at least one normal exit (not a recursion guard)
-	boolResult        bool // the last result is a bool: facts per `return …, true` / `return …, false` exits
+	boolResult        bool // a result is a bool: facts per `return …, true` / `return …, false` exits
+	boolIdx           int  // its index among the results
 	onTrue, onFalse   Facts
 }
 
@@ -676,9 +677,12 @@ func (f *Flow) summarise(spec Spec, fi *FuncInfo, entry Facts) *helperSummary {
 		}
 		return acc
 	}
-	if !hs.errResult && sig.Results().Len() > 0 {
-		if b, ok := sig.Results().At(sig.Results().Len() - 1).Type().Underlying().(*types.Basic); ok && b.Info()&types.IsBoolean != 0 {
-			hs.boolResult = true
+	// a bool result (the last one, or an earlier one when the last is an error): facts per outcome
+	hs.boolIdx = -1
+	for i := sig.Results().Len() - 1; i >= 0; i-- {
+		if b, ok := sig.Results().At(i).Type().Underlying().(*types.Basic); ok && b.Info()&types.IsBoolean != 0 {
+			hs.boolResult, hs.boolIdx = true, i
+			break
 		}
 	}
 	var onTrue, onFalse Facts
@@ -694,8 +698,8 @@ func (f *Flow) summarise(spec Spec, fi *FuncInfo, entry Facts) *helperSummary {
 		}
 		all = join(all, at, nAll == 0)
 		nAll++
-		if hs.boolResult && ex.Ret != nil && len(ex.Ret.Results) > 0 {
-			switch exprStr(unparen(ex.Ret.Results[len(ex.Ret.Results)-1])) {
+		if hs.boolResult && ex.Ret != nil && hs.boolIdx < len(ex.Ret.Results) {
+			switch exprStr(unparen(ex.Ret.Results[hs.boolIdx])) {
 			case "true":
 				onTrue = join(onTrue, at, nTrue == 0)
 				nTrue++
@@ -714,7 +718,7 @@ func (f *Flow) summarise(spec Spec, fi *FuncInfo, entry Facts) *helperSummary {
 			if isNilIdent(fi.Pkg.TypesInfo, last) {
 				onNil = join(onNil, at, nNil == 0)
 				nNil++
-			} else if provablyNonNil(fi.Pkg.TypesInfo, last, at) {
+			} else if provablyNonNil(fi.Pkg.TypesInfo, last, at) || returnsUnderNonNilTest(fi, ex.Ret, last) {
 				onErr = join(onErr, at, nErr == 0)
 				nErr++
 			} else {
@@ -818,8 +822,8 @@ func (f *Flow) applyHelpers(spec Spec, n ast.Node, cur Facts) Facts {
 		// (the bound variable, or the call itself when it is the condition)
 		if hs.boolResult && hs.complete {
 			key := fmt.Sprintf("@%d", c.Pos())
-			if as, ok := n.(*ast.AssignStmt); ok && len(as.Rhs) == 1 && unparen(as.Rhs[0]) == ast.Expr(c) {
-				if id, ok := unparen(as.Lhs[len(as.Lhs)-1]).(*ast.Ident); ok && id.Name != "_" {
+			if as, ok := n.(*ast.AssignStmt); ok && len(as.Rhs) == 1 && unparen(as.Rhs[0]) == ast.Expr(c) && hs.boolIdx < len(as.Lhs) {
+				if id, ok := unparen(as.Lhs[hs.boolIdx]).(*ast.Ident); ok && id.Name != "_" {
 					key = id.Name
 				}
 			}
@@ -860,6 +864,19 @@ func (f *Flow) applyHelpers(spec Spec, n ast.Node, cur Facts) Facts {
 					for k := range hs.onErr {
 						cur["onerr:"+id.Name+"|"+k] = true
 					}
+					// what the helper leaves behind on one outcome only is withdrawn on the other edge
+					if hs.complete {
+						for _, src := range []Facts{entry, hs.all, hs.onNil, hs.onErr} {
+							for k := range src {
+								if !hs.onNil[k] {
+									cur["onnil:"+id.Name+"|-"+k] = true
+								}
+								if !hs.onErr[k] {
+									cur["onerr:"+id.Name+"|-"+k] = true
+								}
+							}
+						}
+					}
 				}
 			}
 		}
@@ -898,7 +915,12 @@ func (f *Flow) applyPending(o Facts, cond ast.Expr, i int) Facts {
 					hit = true
 					if fact := k[len(pfx):]; strings.HasPrefix(fact, "-") {
 						delete(o, fact[1:])
-					} else {
+					}
+				}
+			}
+			for k := range o {
+				if strings.HasPrefix(k, pfx) {
+					if fact := k[len(pfx):]; !strings.HasPrefix(fact, "-") {
 						o[fact] = true
 					}
 				}
@@ -927,12 +949,22 @@ func (f *Flow) applyPending(o Facts, cond ast.Expr, i int) Facts {
 		return o
 	}
 	isNil := (be.Op == token.EQL) == (i == 0)
+	pfx := "onerr:" + id.Name + "|"
+	if isNil {
+		pfx = "onnil:" + id.Name + "|"
+	}
 	for k := range o {
-		if isNil && strings.HasPrefix(k, "onnil:"+id.Name+"|") {
-			o[k[len("onnil:"+id.Name+"|"):]] = true
+		if strings.HasPrefix(k, pfx) {
+			if fact := k[len(pfx):]; strings.HasPrefix(fact, "-") {
+				delete(o, fact[1:])
+			}
 		}
-		if !isNil && strings.HasPrefix(k, "onerr:"+id.Name+"|") {
-			o[k[len("onerr:"+id.Name+"|"):]] = true
+	}
+	for k := range o {
+		if strings.HasPrefix(k, pfx) {
+			if fact := k[len(pfx):]; !strings.HasPrefix(fact, "-") {
+				o[fact] = true
+			}
 		}
 	}
 	for k := range o {
@@ -953,4 +985,25 @@ func globalPrefixes(ps ...string) func(string) bool {
 		}
 		return false
 	}
+}
+
+// returnsUnderNonNilTest: the return statement is control dependent on `v != nil`
+// (taken) or `v == nil` (not taken) for the variable v it returns.
+func returnsUnderNonNilTest(fi *FuncInfo, ret *ast.ReturnStmt, e ast.Expr) bool {
+	info := fi.Pkg.TypesInfo
+	o := objOf(info, e)
+	if o == nil {
+		return false
+	}
+	conds, want := controllingCondsInfo(info, fi.Decl.Body, ret.Pos())
+	isV := func(x ast.Expr) bool { return objOf(info, x) == o }
+	for i, c := range conds {
+		if want[i] && isNilTestOf(info, c, isV, true) {
+			return true
+		}
+		if !want[i] && isNilTestOf(info, c, isV, false) {
+			return true
+		}
+	}
+	return false
 }
